@@ -78,7 +78,7 @@ func opParseCall(_ *World, a []string) string {
 	if !ok {
 		return obsBadOp
 	}
-	fn, args, err := parsers.NewCallArgsParser().ParseData(string(d))
+	fn, args, err := theCallArgsParser.ParseData(string(d))
 	if err != nil {
 		return "err:" + ErrKind(err)
 	}
@@ -94,7 +94,7 @@ func opParseDeploy(_ *World, a []string) string {
 	if !ok {
 		return obsBadOp
 	}
-	res, err := parsers.NewDeployArgsParser().ParseData(string(d))
+	res, err := theDeployArgsParser.ParseData(string(d))
 	if err != nil {
 		return "err:" + ErrKind(err)
 	}
@@ -106,7 +106,7 @@ func opParseStorage(_ *World, a []string) string {
 	if !ok {
 		return obsBadOp
 	}
-	ups, err := parsers.NewStorageUpdatesParser().GetStorageUpdates(string(d))
+	ups, err := theStorageUpdatesParser.GetStorageUpdates(string(d))
 	if err != nil {
 		return "err:" + ErrKind(err)
 	}
@@ -140,7 +140,7 @@ func opBuildStorage(_ *World, a []string) string {
 			ups = append(ups, &vmcommon.StorageUpdate{Offset: off, Data: val})
 		}
 	}
-	s := parsers.NewStorageUpdatesParser().CreateDataFromStorageUpdate(ups)
+	s := theStorageUpdatesParser.CreateDataFromStorageUpdate(ups)
 	return "ok " + hxTok([]byte(s))
 }
 
@@ -152,7 +152,7 @@ func opParseESDT(_ *World, a []string) string {
 	if !ok {
 		return obsBadOp
 	}
-	p, err := parsers.NewESDTTransferParser(pbMarshalizer{})
+	p, err := theESDTTransferParser, errESDTTransferParser
 	if err != nil {
 		return "err:" + ErrKind(err)
 	}
@@ -193,8 +193,10 @@ func opBuild(_ *World, a []string) string {
 }
 
 // opBuildSeq: `buildseq <step> <step> ...` drives ONE builder object through a sequence of its methods, reads included:
-//   f:<hex> Func   b:<hex> Bytes   y:<hex byte> Byte   s:<hex> Str   i:<int64> Int64   t True   x False   c Clear
-//   l:<hex> SetLast(string)   r ToString (read)   g GetLast (read)
+//
+//	f:<hex> Func   b:<hex> Bytes   y:<hex byte> Byte   s:<hex> Str   i:<int64> Int64   t True   x False   c Clear
+//	l:<hex> SetLast(string)   r ToString (read)   g GetLast (read)
+//
 // observation: ok <read>,<read>,...  (each read as hex of the returned string, `-` when empty; `ok` alone without reads)
 func opBuildSeq(_ *World, a []string) string {
 	b := txDataBuilder.NewBuilder()
@@ -251,6 +253,15 @@ func opBuildSeq(_ *World, a []string) string {
 	}
 	return "ok " + strings.Join(reads, ",")
 }
+
+// The parsers are long-lived objects in a node: ONE instance of each serves every op of a run, so that state a parser
+// keeps between calls (none, on the pinned tree) shows in the answers.
+var (
+	theCallArgsParser                            = parsers.NewCallArgsParser()
+	theDeployArgsParser                          = parsers.NewDeployArgsParser()
+	theStorageUpdatesParser                      = parsers.NewStorageUpdatesParser()
+	theESDTTransferParser, errESDTTransferParser = parsers.NewESDTTransferParser(pbMarshalizer{})
+)
 
 const probeGasmap = "BaseOperationCost.StorePerByte=1,BaseOperationCost.ReleasePerByte=1,BaseOperationCost.DataCopyPerByte=1," +
 	"BaseOperationCost.PersistPerByte=1,BaseOperationCost.CompilePerByte=1,BaseOperationCost.AoTPreparePerByte=1," +
